@@ -55,7 +55,7 @@ def optimize : Sx → Sx
       if !w then .list w (.op o :: args) else
       let args' := optList args
       if args'.all isNum then
-        match numFold? .add (.int 0) args' with
+        match pySum? args' with
         | some v => v
         | Option.none => .list true (.op .ADD :: args')   -- OverflowError swallowed by `finally`
       else match allStrs? args' with
